@@ -338,6 +338,11 @@ def main():
         for rep_i in range(1, 7):
             for n in range(1, 33):
                 jobs.append((bindir, n, list(range(n)), rep_i, ['keypath', 'scriptpath'] if n % 4 == 1 else []))
+    else:
+        # two more families of trees (other keys, scripts, prefixes) for the small sizes, every leaf index again
+        for rep_i in (1, 2):
+            for n in range(1, 17):
+                jobs.append((bindir, n, list(range(n)), rep_i, ['keypath', 'scriptpath'] if n % 5 == 1 else []))
     for r in parallel(tree_case, jobs):
         rep.merge(r)
     return rep.finish(
